@@ -36,6 +36,7 @@ from pdfminer.pdfexceptions import (
 from pdfminer.pdfparser import PDFParser, PDFStreamParser, PDFSyntaxError
 from pdfminer.pdftypes import (
     DecipherCallable,
+    PDFObjRef,
     PDFStream,
     decipher_all,
     dict_value,
@@ -908,18 +909,27 @@ class PDFDocument:
             raise PDFNoOutlines
 
         def search(entry: object, level: int) -> Iterator[PDFDocument.OutlineType]:
-            entry = dict_value(entry)
-            if "Title" in entry:
-                if "A" in entry or "Dest" in entry:
-                    title = decode_text(str_value(entry["Title"]))
-                    dest = entry.get("Dest")
-                    action = entry.get("A")
-                    se = entry.get("SE")
-                    yield (level, title, dest, action, se)
-            if "First" in entry and "Last" in entry:
-                yield from search(entry["First"], level + 1)
-            if "Next" in entry:
-                yield from search(entry["Next"], level)
+            # Siblings are followed in a loop, so the recursion depth is the
+            # nesting depth of the outline and not the number of its items.
+            seen = set()
+            while True:
+                if isinstance(entry, PDFObjRef):
+                    if entry.objid in seen:  # circular /Next chain
+                        break
+                    seen.add(entry.objid)
+                entry = dict_value(entry)
+                if "Title" in entry:
+                    if "A" in entry or "Dest" in entry:
+                        title = decode_text(str_value(entry["Title"]))
+                        dest = entry.get("Dest")
+                        action = entry.get("A")
+                        se = entry.get("SE")
+                        yield (level, title, dest, action, se)
+                if "First" in entry and "Last" in entry:
+                    yield from search(entry["First"], level + 1)
+                if "Next" not in entry:
+                    break
+                entry = entry["Next"]
 
         return search(self.catalog["Outlines"], 0)
 
